@@ -281,6 +281,17 @@ func (r *SexpArray) Type() *RegisteredType {
 }
 
 func (arr *SexpArray) SexpString(ps *PrintState) string {
+	// an array can hold itself ((aset a 0 a)); print the inner occurrence
+	// as a marker instead of recursing until the Go stack is exhausted.
+	if ps == nil {
+		ps = NewPrintState()
+	}
+	if ps.GetSeen(arr) {
+		return "[...]"
+	}
+	ps.SetSeen(arr, "SexpArray being printed")
+	defer delete(ps.Seen, arr)
+
 	indInner := ""
 	indent := ps.GetIndent()
 	innerPs := ps.AddIndent(4) // generates a fresh new PrintState
